@@ -43,19 +43,33 @@ def analyze(repo) -> Result:
     res.pkg = pkg
     # pass 1: which attributes does each method bind to something that is not freshly allocated (transitively over self calls)
     direct = {}
+    gdirect, gcalls = {}, {}
     for q in sorted(pkg.funcs):
         f = pkg.funcs[q]
-        if f.cls is None:
-            continue
         nf = set()
+        gdirect[q], gcalls[q] = set(), set()
         for var in f.variants:
             try:
                 fx = FX(pkg, f, var)
                 fx.run()
                 nf |= fx.nf_direct
+                gdirect[q] |= fx.globals_direct
+                gcalls[q] |= {c.split('[')[0] for c in fx.calls}
             except (Unclassified, RecursionError):
                 nf |= set(f.attrs_written)
-        direct[q] = nf
+        if f.cls is not None:
+            direct[q] = nf
+    # module-level mutable objects / mutable defaults reachable from each callable (transitive over the call graph)
+    changed = True
+    while changed:
+        changed = False
+        for q in gdirect:
+            for c in gcalls[q]:
+                if c in gdirect and not gdirect[c] <= gdirect[q]:
+                    gdirect[q] |= gdirect[c]
+                    changed = True
+    for q, g in gdirect.items():
+        pkg.funcs[q].globals = sorted(g)
     changed = True
     while changed:
         changed = False
@@ -178,13 +192,15 @@ def emit_coq(res: Result, path, extra_lines=()):
         L.append(f'Definition body_{e.fid} : prog := {_p(res, e, e.prog)}.')
     L.append('')
     L.append('Definition generated_programs : table := [')
-    L.append(';\n'.join(f'  {{| f_nparams := {len(e.params)}; f_body := body_{e.fid}; f_ret := {e.vars["$ret"]} |}}' for e in res.entries))
+    L.append(';\n'.join(f'  {{| f_nparams := {len(e.params)}; f_body := body_{e.fid}; f_ret := {e.vars["$out"]} |}}' for e in res.entries))
     L.append('].')
     L.append('Definition names : list string := [')
     L.append(';\n'.join(f'  "{e.name}"' for e in res.entries))
     L.append('].')
     L.append('Definition is_public : list bool := [' + '; '.join('true' if e.public else 'false' for e in res.entries) + '].')
     L.append('Definition n_explicit : list nat := [' + '; '.join(str(e.n_explicit) for e in res.entries) + '].')
+    L.append('Definition ret_real : list nat := [' + '; '.join(str(e.vars['$ret']) for e in res.entries) + '].')
+    L.append('Definition shared_params : list (list nat) := [' + '; '.join('[' + ';'.join(str(i) for i, p in enumerate(e.params) if p.startswith('@')) + ']' for e in res.entries) + '].')
     L += list(extra_lines)
     with open(path, 'w') as fh:
         fh.write('\n'.join(L) + '\n')
